@@ -126,6 +126,10 @@ func (fw *FileWriter) openExistingFile() error {
 	headerBuf := make([]byte, FileHeaderSize)
 	if _, err := io.ReadFull(file, headerBuf); err != nil {
 		file.Close()
+		if errors.Is(err, io.EOF) || errors.Is(err, io.ErrUnexpectedEOF) {
+			// The crash happened while the file was being created: it never held a block.
+			return fw.createNewFile()
+		}
 		return err
 	}
 
@@ -135,9 +139,26 @@ func (fw *FileWriter) openExistingFile() error {
 		return err
 	}
 
+	if fi, err := file.Stat(); err == nil && fi.Size() < fw.header.DataStartOffset() {
+		// Same as above, torn while the swamp name behind the header was being written.
+		file.Close()
+		return fw.createNewFile()
+	}
+
 	fw.file = file
 	fw.blockCount = fw.header.BlockCount
 	fw.entryCount = fw.header.EntryCount
+
+	// A crash can leave a torn block (partial block header or payload) at the tail. The reader
+	// stops there, so blocks appended behind it would never be read again: cut it off first.
+	end, err := completeBlocksEnd(file, fw.header.DataStartOffset())
+	if err == nil {
+		err = file.Truncate(end)
+	}
+	if err != nil {
+		file.Close()
+		return err
+	}
 
 	// Seek to end for appending
 	if _, err := file.Seek(0, io.SeekEnd); err != nil {
@@ -146,6 +167,36 @@ func (fw *FileWriter) openExistingFile() error {
 	}
 
 	return nil
+}
+
+// completeBlocksEnd walks the block headers from dataStart and returns the offset just behind
+// the last block that is completely contained in the file.
+func completeBlocksEnd(file *os.File, dataStart int64) (int64, error) {
+	fi, err := file.Stat()
+	if err != nil {
+		return 0, err
+	}
+	size := fi.Size()
+	pos := dataStart
+	if pos > size {
+		return size, nil
+	}
+	buf := make([]byte, BlockHeaderSize)
+	for pos+int64(BlockHeaderSize) <= size {
+		if _, err := file.ReadAt(buf, pos); err != nil {
+			return 0, err
+		}
+		var bh BlockHeader
+		if err := bh.Deserialize(buf); err != nil {
+			return 0, err
+		}
+		next := pos + int64(BlockHeaderSize) + int64(bh.CompressedSize)
+		if next > size {
+			break
+		}
+		pos = next
+	}
+	return pos, nil
 }
 
 // WriteEntry adds an entry to the buffer and flushes if necessary
